@@ -1069,8 +1069,10 @@ def _M(
   # precompute buf = crb_body_i * cdof_i
   buf = math.inert_vec(crb_in[worldid, bodyid], cdof_in[worldid, dofid])
 
-  # sparse backward pass over ancestors
-  while dofid >= 0:
+  # sparse backward pass over ancestors; a simple dof's row holds its diagonal only (M_rownnz == 1
+  # although it has ancestors), so the walk must not leave the row
+  rowadr = M_rowadr[dofid]
+  while dofid >= 0 and madr_ij >= rowadr:
     M_out[worldid, madr_ij] += wp.dot(cdof_in[worldid, dofid], buf)
     madr_ij -= 1
     dofid = dof_parentid[dofid]
@@ -1138,7 +1140,8 @@ def _tendon_armature(
   # sparse backward pass over ancestors
   dofidi = dofid
   ptr = dofid_sparse
-  while dofid >= 0:
+  madr_row = M_rowadr[dofid]  # a simple dof's row holds its diagonal only: stay inside the row
+  while dofid >= 0 and madr_ij >= madr_row:
     if dofid == dofidi:
       ten_Jj = ten_Ji
     else:
